@@ -323,6 +323,10 @@ class Values(Family):
                 # C17: TSI-5
                 ex.prove('C17:%s:never-writes-a-tree-owned-list[%s]' % (fn, wkind), ['C17'],
                          z3.Or(fresh, z3.Not(L.node_owned(ref))), info, soft=True)
+            # C13 / C12: the evaluator itself changes a container a program can already see only by the in-place
+            # operator of a compound assignment (a direct mutating operation on the named variable)
+            if self.role in ('op_override', 'closure') and not (self.ctx.get('cls') == 'ShortOp' and wkind in ('iadd', 'imul')):
+                ex.prove('C13:%s:evaluator-writes-only-containers-it-allocated[%s]' % (fn, wkind), ['C13', 'C12', 'C14'], fresh, info, soft=True)
             # C13: W1
             if self.role == 'builtin' and self.is_mutator is False:
                 ex.prove('C13:%s:writes-only-objects-it-allocated[%s]' % (fn, wkind), ['C13'], fresh, info, soft=True)
